@@ -459,6 +459,9 @@ def r8_effective_priority_only(ctx):
 
 
 def run(ctx):
+    # E-drop (rules/dropped.py): no bool result of a function of these modules is thrown away by a caller anywhere in the workspace
+    from . import dropped
+    dropped.rule_dropped(ctx, "C19.R10", [k for k in ["cascette_formats", "cascette_client_storage", "cascette_cache", "cascette_protocol", "cascette_ribbit"] if k in (CRATES or [])] or CRATES, r"cascette-formats/src/(install|download|size)/", floor=0)
     # E-stale (rules/stale.py): no snapshot of a self field is written back after a self-method call that may have changed it
     from . import stale
     stale.rule_stale(ctx, "C19.R9", "cascette_formats", r"src/(install|download|size)/")
@@ -472,4 +475,4 @@ def run(ctx):
 
 
 from .selftest import for_families as _ff  # noqa: E402
-selftest = _ff(['slice', 'loop', 'fold', 'stale'])
+selftest = _ff(['slice', 'loop', 'fold', 'stale', 'drop'])
